@@ -151,12 +151,84 @@ def check_from_root_other(res, root, inp):
                                  detail="a.clone_from_root(b) did not return the copy of b"))
 
 
+_CLS, _IDS = {}, {}
+
+
+def preorder(n, acc=None):
+    acc = [] if acc is None else acc
+    if n is not None:
+        acc.append(n)
+        preorder(n.left, acc)
+        preorder(n.right, acc)
+    return acc
+
+
+def heap_records(objs, bare):
+    """one record per object (address = position): cls id val ident col l r p cn ct, as the HEAP driver command reads and prints them"""
+    pos = {id(o): i for i, o in enumerate(objs)}
+
+    def ptr(o):
+        return "-" if o is None else str(pos.get(id(o), "X"))
+    out = []
+    for o in objs:
+        cls = _CLS.setdefault(type(o).__name__, len(_CLS) + 1)
+        nid = _IDS.setdefault(o.id, len(_IDS) + 1)
+        v = getattr(o, "value", None)
+        ident = getattr(o, "identifier", None)
+        ct = getattr(o, "cloned_target", None)
+        out.append(" ".join([str(cls), str(nid), "-" if v is None else P.num_text(P.num_tuple(v)), "-" if ident is None else str(ord(ident)),
+                             "1" if getattr(o, "child_on_left", False) else "0", ptr(o.left), ptr(o.right), ptr(o.parent),
+                             "-" if bare else ptr(getattr(o, "cloned_node", None)),
+                             "-" if bare or ct is None else "e" if ct == "" else ".".join(str(_CLS.setdefault(c, len(_CLS) + 1)) for c in ct.split("."))]))
+    return out
+
+
+def heap_cases(res, rnd, name, root, lines, meta):
+    """clone() of the root and of an inner node, clone_from_root() of up to three nodes: the implementation's whole object graph afterwards
+    (old objects first, then the copy in pre-order) must be the heap the extracted Heap.v computes from the graph before"""
+    bare = not hasattr(root, "clone_from_root")
+    before = preorder(root)
+    if len(before) > 40 or any(isinstance(getattr(o, "identifier", None), str) and len(o.identifier) != 1 for o in before):
+        return
+    picks = [("clone", root)]
+    inner = [o for o in before if o is not root]
+    if inner:
+        picks.append(("clone", rnd.choice(inner)))
+    if not bare:
+        picks += [("cfr", o) for o in rnd.sample(before, min(3, len(before)))]
+    for op, target in picks:
+        recs = heap_records(before, bare)
+        if any(" X" in r for r in recs):
+            return
+        try:
+            c = target.clone() if op == "clone" else target.clone_from_root()
+        except Exception as e:
+            meta.append((f"EXC {type(e).__name__}", dict(tree=name, op=op, node=before.index(target))))
+            lines.append(f"HEAP {op} {before.index(target)} " + " | ".join(recs))
+            continue
+        top = c
+        while top.parent is not None:
+            top = top.parent
+        after = before + preorder(top)
+        arecs = heap_records(after, bare)
+        ans = f"OK {[id(o) for o in after].index(id(c))} | " + " | ".join(arecs)
+        lines.append(f"HEAP {op} {before.index(target)} " + " | ".join(recs))
+        meta.append((ans, dict(tree=name, op=op, node=before.index(target), bare=bare)))
+
+
+def blank_scratch(text):
+    """drop the cloned_node / cloned_target columns (bare BinaryTreeNode objects have no such attributes)"""
+    head, *recs = text.split(" | ")
+    return " | ".join([head] + [" ".join(r.split(" ")[:8]) for r in recs])
+
+
 def run(ctx):
     res = ctx.res
     rnd = ctx.rnd
     res.rule = ("trees: parser outputs, rule results, random constructor-built expression trees incl. one-operand nodes with the operand on the LEFT, and bare "
                 "BinaryTreeNode shapes (all shapes <= 6 nodes); clone() of every tree, clone_from_root() from every node; distinct = distinct tree; non-trivial = >= 3 nodes")
-    res.suites = ["clone (structural description incl. class, id, payload, operand side, child sides: clone vs original)",
+    res.suites = ["heap (the whole object graph after clone() / clone_from_root(): every old and new object with class, id, payload, operand side, left/right/parent pointers, cloned_node, cloned_target vs the extracted Heap.v run on the graph before)",
+                  "clone (structural description incl. class, id, payload, operand side, child sides: clone vs original)",
                   "oracle: no shared node object, consistent links, equal str/evaluate, original untouched, mutual independence under later edits, "
                   "clone_from_root returns the copy of the same node at the same path inside a complete copy"]
     from mathy_core.parser import ExpressionParser
@@ -191,6 +263,7 @@ def run(ctx):
         t = SH.label(s)[0]
         trees.append(("shape " + SH.text(t), SH.build_nodes(t)[0]))
     known_c2 = 0
+    lines, meta = [], []
     for name, root in trees:
         res.evaluations += 1
         inp = dict(tree=name, description=str(describe(root))[:300])
@@ -198,6 +271,7 @@ def run(ctx):
         if n >= 3:
             res.nontrivial.add(str(describe(root)))
         res.count(f"size{min(n // 4 * 4, 24)}")
+        heap_cases(res, rnd, name, root, lines, meta)
         if hasattr(root, "clone_from_root"):
             check_from_root(res, root, inp)
             if res.evaluations % 25 == 0:
@@ -205,6 +279,15 @@ def run(ctx):
         check_tree(res, rnd, root, inp)
         if n > 5:
             res.sample(dict(tree=name, nodes=n))
+    model = common.drive(lines) if ctx.driver_ok else [None] * len(lines)
+    for (ans, inp), m in zip(meta, model):
+        res.evaluations += 1
+        if m is None:
+            continue
+        if inp.get("bare"):
+            ans, m = blank_scratch(ans), (blank_scratch(m) if m.startswith("OK") else m)
+        if m.strip() != ans.strip():
+            res.disagreements.append(dict(suite="heap." + inp["op"], input=inp, impl=ans[:400], model=m[:400]))
 
 
 def replay(payload):
